@@ -266,7 +266,8 @@ struct G<'a> {
     lines: Vec<SrcLine>,
     n_label: usize,
     procs: Vec<String>,
-    macros: Vec<(String, usize, usize)>, // name, n_params, n_instr
+    /// name, n_params, classes of the emitted instructions, same for the reference variant
+    macros: Vec<(String, usize, Vec<&'static str>, Vec<&'static str>)>,
     data_labels: Vec<(String, bool)>,    // name, is_word
     tags: Vec<String>,
     svc_reads: usize,
@@ -484,6 +485,13 @@ impl<'a> G<'a> {
     }
 
     fn plain(&mut self) {
+        if self.cfg.feat.memops && self.cfg.feat.edges && self.r.chance(6) {
+            // move the data segment, sometimes to the very top of the address space
+            let v = *self.r.pick(&[0u16, 0xFFFF, 0x1000, 0xFFF0, 1]);
+            self.set_seg("ds", v);
+            self.tag("ds_changed");
+            return;
+        }
         let k = self.r.below(14);
         match k {
             0 => {
@@ -957,7 +965,7 @@ impl<'a> G<'a> {
                 self.tag("call");
             }
             _ => {
-                let (name, np, ni) = self.r.pick(&self.macros).clone();
+                let (name, np, em, rem) = self.r.pick(&self.macros).clone();
                 let mut args = Vec::new();
                 for _ in 0..np {
                     args.push(if self.r.chance(50) {
@@ -967,8 +975,7 @@ impl<'a> G<'a> {
                     });
                 }
                 let t = format!("{}({})", name, args.join(", "));
-                let em = vec!["macro_body"; ni];
-                self.line_full(&t, None, em.clone(), em);
+                self.line_full(&t, None, em, rem);
                 self.tag("macro_use");
             }
         }
@@ -1008,27 +1015,60 @@ impl<'a> G<'a> {
             let name = format!("m_{}", i);
             let np = self.r.urange(0, 2);
             let params: Vec<String> = (0..np).map(|k| format!("a_{}", k)).collect();
-            // body: 1-3 instructions using the parameters as source operands
+            // body: 1-3 instructions using the parameters as source operands; sometimes a
+            // print statement, a breakpoint or a console service inside the macro
             let ni = self.r.urange(1, 3);
-            let mut body = Vec::new();
+            let mut body: Vec<String> = Vec::new();
+            let mut ref_body: Vec<String> = Vec::new();
+            let mut em: Vec<&'static str> = Vec::new();
+            let mut rem: Vec<&'static str> = Vec::new();
             for k in 0..ni {
+                let special = self.r.below(10);
+                if special == 0 && self.cfg.feat.prints {
+                    body.push("print reg".to_owned());
+                    ref_body.push("print reg".to_owned());
+                    em.push("print");
+                    rem.push("print");
+                    self.tag("print_in_macro");
+                    continue;
+                }
+                if special == 1 && self.cfg.feat.int3 {
+                    body.push("int 3".to_owned());
+                    em.push("int3");
+                    self.tag("int3_in_macro");
+                    continue;
+                }
                 let src = if np > 0 { params[k % np].clone() } else { format!("{}", self.r.below(100)) };
                 let dst = *self.r.pick(&["si", "di", "dx"]);
                 let op = *self.r.pick(&["mov", "add", "sub"]);
-                body.push(format!("{} {}, {}", op, dst, src));
+                let t = format!("{} {}, {}", op, dst, src);
+                body.push(t.clone());
+                ref_body.push(t);
+                em.push("macro_body");
+                rem.push("macro_body");
+            }
+            if ref_body.is_empty() {
+                // the reference variant must still assemble
+                body.push("inc di".to_owned());
+                ref_body.push("inc di".to_owned());
+                em.push("macro_body");
+                rem.push("macro_body");
             }
             // nested use of an earlier macro
-            let mut ni_total = ni;
             if i > 0 && self.r.chance(50) {
-                let (pn, pnp, pni) = self.macros[0].clone();
+                let (pn, pnp, pem, prem) = self.macros[0].clone();
                 let args: Vec<String> = (0..pnp).map(|_| "7".to_owned()).collect();
-                body.push(format!("{}({})", pn, args.join(",")));
-                ni_total += pni;
+                let u = format!("{}({})", pn, args.join(","));
+                body.push(u.clone());
+                ref_body.push(u);
+                em.extend(pem);
+                rem.extend(prem);
                 self.tag("nested_macro");
             }
             let t = format!("macro {}({}) -> {} <-", name, params.join(","), body.join(" "));
-            self.raw(&t);
-            self.macros.push((name, np, ni_total));
+            let rt = format!("macro {}({}) -> {} <-", name, params.join(","), ref_body.join(" "));
+            self.line_full(&t, Some(&rt), vec![], vec![]);
+            self.macros.push((name, np, em, rem));
         }
     }
 
@@ -1051,10 +1091,9 @@ impl<'a> G<'a> {
                 match self.r.below(6) {
                     0 if self.cfg.feat.prints => self.print_in_proc(),
                     1 if !self.macros.is_empty() => {
-                        let (mname, np, ni) = self.r.pick(&self.macros).clone();
+                        let (mname, np, em, rem) = self.r.pick(&self.macros).clone();
                         let args: Vec<String> = (0..np).map(|_| "3".to_owned()).collect();
-                        let em = vec!["macro_body"; ni];
-                        self.line_full(&format!("{}({})", mname, args.join(",")), None, em.clone(), em);
+                        self.line_full(&format!("{}({})", mname, args.join(",")), None, em, rem);
                     }
                     2 if !self.procs.is_empty() => {
                         let p = self.r.pick(&self.procs).clone();
